@@ -103,6 +103,8 @@ type Stats struct {
 	FindingCount map[string]int
 	Witnesses    map[string]int // reach label -> count
 	WitnessMods  []map[string]interface{}
+	witnessKept  map[string][]keptWitness
+	findingKept  map[string][]Finding
 	FeasQ        int
 	OblQ         int
 	CrossQ       int
@@ -121,7 +123,7 @@ type PathSample struct {
 }
 
 func NewStats() *Stats {
-	return &Stats{FindingCount: map[string]int{}, Funcs: map[string]int{}, Intrinsics: map[string]int{}, Stubs: map[string]int{}, Witnesses: map[string]int{}}
+	return &Stats{findingKept: map[string][]Finding{}, witnessKept: map[string][]keptWitness{}, FindingCount: map[string]int{}, Funcs: map[string]int{}, Intrinsics: map[string]int{}, Stubs: map[string]int{}, Witnesses: map[string]int{}}
 }
 
 func (in *Interp) noteFunc(fn *ssa.Function) {
@@ -694,32 +696,52 @@ func (in *Interp) reach(label string) {
 		return
 	}
 	in.reached[label] = true
+	key := decisionKey(in.taken)
 	in.stats.mu.Lock()
-	need := in.stats.Witnesses[label] < 3
+	in.stats.Witnesses[label]++
+	kept := in.stats.witnessKept[label]
+	need := len(kept) < 3 || key < kept[len(kept)-1].key
 	in.stats.mu.Unlock()
 	if !need {
-		in.stats.mu.Lock()
-		in.stats.Witnesses[label]++
-		in.stats.mu.Unlock()
 		return
 	}
+	// the witness set is the three smallest decision lists reaching the
+	// label: deterministic, whatever the scheduling of the workers
 	r, m, err := in.solver.Check(in.pc, in.inputTerms())
 	if err != nil || r != smt.Sat {
 		if r == smt.Unsat {
+			in.stats.mu.Lock()
+			in.stats.Witnesses[label]--
+			in.stats.mu.Unlock()
 			return // infeasible path reached the label: not a witness
 		}
 		in.inconclusive(fmt.Sprintf("witness query %q: %v %v", label, r, err))
 		return
 	}
+	mm := in.buildModel(m)
+	mm["@decisions"] = append([]int{}, in.taken...)
+	mm["@label"] = label
 	in.stats.mu.Lock()
-	in.stats.Witnesses[label]++
-	if len(in.stats.WitnessMods) < 40 {
-		mm := in.buildModel(m)
-		mm["@decisions"] = append([]int{}, in.taken...)
-		mm["@label"] = label
-		in.stats.WitnessMods = append(in.stats.WitnessMods, mm)
+	kept = append(in.stats.witnessKept[label], keptWitness{key: key, model: mm})
+	sort.Slice(kept, func(i, j int) bool { return kept[i].key < kept[j].key })
+	if len(kept) > 3 {
+		kept = kept[:3]
 	}
+	in.stats.witnessKept[label] = kept
 	in.stats.mu.Unlock()
+}
+
+type keptWitness struct {
+	key   string
+	model map[string]interface{}
+}
+
+func decisionKey(d []int) string {
+	b := make([]byte, len(d))
+	for i, x := range d {
+		b[i] = byte('0' + x)
+	}
+	return string(b)
 }
 
 // PathResult is what one path run reports back to the explorer.
@@ -985,8 +1007,15 @@ func Explore(p *Program, entry *ssa.Function, cfg ExploreConfig) (*ExploreResult
 				for _, f := range res.Findings {
 					key := f.Kind + "|" + f.Msg + "|" + f.KnownID
 					stats.FindingCount[key]++
-					if stats.FindingCount[key] <= 3 && len(stats.Findings) < 400 {
-						stats.Findings = append(stats.Findings, f)
+					// keep the five counterexamples with the smallest decision
+					// lists per obligation: a deterministic choice
+					ks := append(stats.findingKept[key], f)
+					sort.SliceStable(ks, func(i, j int) bool { return decisionKey(ks[i].Decisions) < decisionKey(ks[j].Decisions) })
+					if len(ks) > 5 {
+						ks = ks[:5]
+					}
+					if len(stats.findingKept) < 200 || stats.findingKept[key] != nil {
+						stats.findingKept[key] = ks
 					}
 				}
 				if len(stats.Samples) < 12 || (res.Outcome != "ok" && res.Outcome != "pruned" && len(stats.Samples) < 24) {
@@ -1014,7 +1043,29 @@ func Explore(p *Program, entry *ssa.Function, cfg ExploreConfig) (*ExploreResult
 	if firstErr != nil {
 		return nil, firstErr
 	}
-	sort.Slice(stats.Findings, func(i, j int) bool {
+	{
+		var labels []string
+		for l := range stats.witnessKept {
+			labels = append(labels, l)
+		}
+		sort.Strings(labels)
+		// round-robin over the labels so that a replay budget of n models
+		// covers as many labels as possible
+		for rank := 0; rank < 3; rank++ {
+			for _, l := range labels {
+				if k := stats.witnessKept[l]; rank < len(k) {
+					stats.WitnessMods = append(stats.WitnessMods, k[rank].model)
+				}
+			}
+		}
+	}
+	for _, ks := range stats.findingKept {
+		stats.Findings = append(stats.Findings, ks...)
+	}
+	sort.SliceStable(stats.Findings, func(i, j int) bool {
+		return decisionKey(stats.Findings[i].Decisions) < decisionKey(stats.Findings[j].Decisions)
+	})
+	sort.SliceStable(stats.Findings, func(i, j int) bool {
 		return fmt.Sprint(stats.Findings[i].Decisions) < fmt.Sprint(stats.Findings[j].Decisions)
 	})
 	return &ExploreResult{Stats: stats, Exhausted: cut == "", CutReason: cut}, nil
